@@ -300,6 +300,9 @@ M('F26R', 'src/xdoctest/parser.py', """                a = 0
                 intervals = intervals[::-1]
                 return intervals
 """, ['C13', 'C01'], 'F26 repair reverted: balanced groups searched from the bottom up')
+M('F27R', 'src/xdoctest/static_analysis.py', """        self.sourcelines = re.split('\\r\\n|\\r|\\n', self.source)
+""", """        self.sourcelines = self.source.splitlines()
+""", ['C08'], 'F27 repair reverted: the line table is split at form feeds and unicode separators too')
 M('F17R', 'src/xdoctest/doctest_example.py', """                part_directive = None
                 try:
                     try:
